@@ -1,0 +1,14 @@
+//go:build verif
+
+package main
+
+// Contracts for the command line front end, read by the govc verifier (build tag
+// verif). This file contains no executable code.
+//
+//@ func runWorkflow
+//@   requires flow != nil && logger != nil
+//@   ensures [invalid-workflow-exits-1] callres(Parse, 1, 1) != nil ==> result == 1
+//@   ensures [namespaces-only-exits-0] callres(Parse, 1, 1) == nil && getNamespaces ==> result == 0
+//@   ensures [failed-run-exits-3] callres(Parse, 1, 1) == nil && !getNamespaces && callres(Run, 1, 3) != nil ==> result == 3
+//@   ensures [error-output-exits-2] callres(Parse, 1, 1) == nil && !getNamespaces && callres(Run, 1, 3) == nil && callres(yaml.Marshal, 1, 1) == nil ==> \
+//@       result == ite(callres(Run, 1, 2), 2, 0)
